@@ -14,11 +14,11 @@ from .worlds import World, build_sim, make_config, make_env, mk_station, mk_vehi
 class FifoWorld(World):
     name = "W-fifo"
 
-    def __init__(self, plugs=("DCFC",), small: bool = False, pairs: bool = True, name: str = "", full_v1: bool = False, t0: bool = False, midnight: bool = False, fleets: bool = False, human: int = 0, home_at_station: bool = False, drain: bool = False, l2_busy: bool = False):
+    def __init__(self, plugs=("DCFC",), small: bool = False, pairs: bool = True, name: str = "", full_v1: bool = False, t0: bool = False, midnight: bool = False, fleets: bool = False, human: int = 0, home_at_station: bool = False, drain: bool = False, l2_busy: bool = False, high_soc: bool = False):
         super().__init__()
         self.pairs = pairs
         self.name = name or ("W-fifo" + ("/2plugs" if len(plugs) > 1 else "") + ("/small" if small else "") + ("/full-arrival" if full_v1 else "") + ("/t0" if t0 else "")
-                             + ("/midnight" if midnight else "") + ("/fleets" if fleets else "") + (f"/human-off-after-{human}" if human else "") + ("/home-at-station" if home_at_station else "") + ("/drain" if drain else "") + ("/both-busy" if l2_busy else ""))
+                             + ("/midnight" if midnight else "") + ("/fleets" if fleets else "") + (f"/human-off-after-{human}" if human else "") + ("/home-at-station" if home_at_station else "") + ("/drain" if drain else "") + ("/both-busy" if l2_busy else "") + ("/high-soc" if high_soc else ""))
         S = sites()
         # t0: no early unplugging by the driver (soc limit 1.0), so that a charging vehicle leaves through the default
         # transition of the update phase when its battery is full (power-curve branch stops just below capacity)
@@ -47,6 +47,9 @@ class FifoWorld(World):
         if drain:
             # v5 has a tiny battery with idle draw: waiting in the queue empties it to exactly 0.0 after three steps
             v5 = mk_vehicle(env, rn, "v5", S["N1"], "tiny_thirsty", energy=0.12, fleets=fl("v5"))
+        if high_soc:
+            # v5 comes to top up from 85 %: above the level at which its driver unplugs it again (ideal_fastcharge_soc_limit 0.8), not full
+            v5 = mk_vehicle(env, rn, "v5", S["N1"], "quiet", soc=0.85, fleets=fl("v5"))
         v3 = mk_vehicle(env, rn, "v3", S["M1"], "quiet", soc=0.3, fleets=fl("v3"))
         # full_v1: a small-battery vehicle that is still "full" when it arrives (must not block the queue)
         v1 = mk_vehicle(env, rn, "v1", S["N2"], "small", energy=1.0) if full_v1 else mk_vehicle(env, rn, "v1", S["N2"], "quiet", soc=0.3)
@@ -94,6 +97,55 @@ class FifoWorld(World):
     @property
     def idle_clip(self) -> int:
         return 0  # idle time-out far beyond the horizon: idle_duration is never read
+
+    # -- history variable: the OBSERVED order of arrival in every queue ------------------------------------------------------
+    # hv = (released, queues) with queues = (((station, plug), (batch, batch, ...)), ...): the vehicles seen waiting for that plug
+    # type, grouped into batches that joined in the same step, earliest first.  It is built from what the harness sees happen
+    # (who is in which queue after each step), never from the enqueue_time the library stamps, so that the first-come-first-served
+    # oracle does not rest on the very field the queue logic reads and writes.
+
+    def hv0_for(self, label: str):
+        start = self.starts[label]
+        by_queue = {}
+        for vid, v in start.vehicles.items():
+            st = v.vehicle_state
+            if st.__class__.__name__ == "ChargeQueueing":
+                # start states are built by the harness itself; their stamps are what the harness put there
+                by_queue.setdefault((st.station_id, st.charger_id), {}).setdefault(int(st.enqueue_time), []).append(vid)
+        queues = tuple(sorted((q, tuple(tuple(sorted(b)) for _, b in sorted(d.items()))) for q, d in by_queue.items()))
+        return (self.hv0(), queues)
+
+    def released(self, hv):
+        return hv[0]
+
+    def hv_next(self, hv, pre, events, post, reports):
+        rel = World.hv_next(self, hv[0], pre, events, post, reports)
+        old = dict(hv[1])
+        now = {}
+        for vid, v in post.vehicles.items():
+            st = v.vehicle_state
+            if st.__class__.__name__ == "ChargeQueueing":
+                now.setdefault((st.station_id, st.charger_id), set()).add(vid)
+        queues = []
+        for q, members in sorted(now.items()):
+            kept = [tuple(x for x in batch if x in members) for batch in old.get(q, ())]
+            kept = [b for b in kept if b]
+            seen = {x for b in kept for x in b}
+            new = tuple(sorted(members - seen))
+            if new:
+                kept.append(new)
+            queues.append((q, tuple(kept)))
+        return (rel, tuple(queues))
+
+
+def observed_rank(hv, station_id, charger_id):
+    """{vehicle id: index of its arrival batch} for one queue, from the history variable; None if the world keeps none"""
+    if not (isinstance(hv, tuple) and len(hv) == 2 and isinstance(hv[1], tuple)):
+        return None
+    for q, batches in hv[1]:
+        if q == (station_id, charger_id):
+            return {vid: i for i, b in enumerate(batches) for vid in b}
+    return {}
 
 
 def make(**kw):
